@@ -80,13 +80,13 @@ func (a *Acct) Sign(msg []byte) []byte {
 
 // Val is a validator identity: Tendermint consensus key, stake (owner) account, ECDSA key.
 type Val struct {
-	Name   string
-	Key    *Acct // consensus key; Key.Addr is the validator address
-	Owner  *Acct // stake address
-	Ecdsa  keys.PrivateKey
-	EcPub  keys.PublicKey
-	ecRaw  []byte
-	Stake  int64 // whole OLT
+	Name    string
+	Key     *Acct // consensus key; Key.Addr is the validator address
+	Owner   *Acct // stake address
+	Ecdsa   keys.PrivateKey
+	EcPub   keys.PublicKey
+	ecRaw   []byte
+	Stake   int64 // whole OLT
 	Genesis bool
 }
 
@@ -108,9 +108,9 @@ func NewVal(seed uint64, name string, stake int64, genesis bool) *Val {
 // Params selects a genesis family member (DESIGN App. C).
 type Params struct {
 	Seed            uint64
-	NVals           int   // genesis validators
-	NCandidates     int   // extra validator identities that may stake later
-	NAccts          int   // funded user accounts
+	NVals           int // genesis validators
+	NCandidates     int // extra validator identities that may stake later
+	NAccts          int // funded user accounts
 	TopValidators   int64
 	MinSelfDeleg    int64
 	StakeMaturity   int64
@@ -137,13 +137,13 @@ func SmallParams(seed uint64) Params {
 
 // World is everything a history generator needs to know: identities and the genesis document.
 type World struct {
-	P       Params
-	Vals    []*Val
-	Accts   []*Acct
-	Genesis *config.GenesisDoc
-	State   consensus.AppState
-	OLT     balance.Currency
-	ChainID string
+	P           Params
+	Vals        []*Val
+	Accts       []*Acct
+	Genesis     *config.GenesisDoc
+	State       consensus.AppState
+	OLT         balance.Currency
+	ChainID     string
 	GenesisTime time.Time
 }
 
@@ -233,8 +233,8 @@ func NewWorld(p Params) *World {
 	w.State = consensus.AppState{
 		Currencies: []balance.Currency{olt, vt, obtc, oeth, ottc},
 		Balances:   balances, Staking: staking, Witness: witness,
-		Rewards:    rewards.RewardMasterState{RewardState: rewards.NewRewardState(), CumuState: rewards.NewRewardCumuState()},
-		Domains:    []consensus.DomainState{}, Fees: []consensus.BalanceState{}, Governance: gov,
+		Rewards: rewards.RewardMasterState{RewardState: rewards.NewRewardState(), CumuState: rewards.NewRewardCumuState()},
+		Domains: []consensus.DomainState{}, Fees: []consensus.BalanceState{}, Governance: gov,
 	}
 	gd, err := consensus.NewGenesisDoc(w.ChainID, w.State)
 	if err != nil {
@@ -273,7 +273,10 @@ func writeNodeFiles(dir string, id Identity, cfg *config.Server) (*node.Context,
 	if err := ioutil.WriteFile(nkPath, bz, 0600); err != nil {
 		return nil, err
 	}
-	pv := privval.NewFilePV(id.Val.Key.tm, filepath.Join(cdir, "priv_validator_key.json"), filepath.Join(ddir, "priv_validator_state.json"))
+	pv := privval.GenFilePV(filepath.Join(cdir, "priv_validator_key.json"), filepath.Join(ddir, "priv_validator_state.json"))
+	pv.Key.PrivKey = id.Val.Key.tm
+	pv.Key.PubKey = id.Val.Key.tm.PubKey()
+	pv.Key.Address = pv.Key.PubKey.Address()
 	pv.Save()
 	if err := ioutil.WriteFile(filepath.Join(cdir, "priv_validator_key_ecdsa.json"), []byte(base64.StdEncoding.EncodeToString(id.Val.ecRaw)), 0600); err != nil {
 		return nil, err
